@@ -44,7 +44,7 @@ func (C20) AllowsPanic500(sc *drv.Scenario) bool { return true } // judged per r
 
 var c20Kinds = []string{
 	"seg-blocks", "seg-blocks", "seg-blocks", "seg-ingest-supervoxels", "seg-raw", "seg-raw-compressed", "seg-split", "seg-split-supervoxel", "seg-indices", "seg-index", "seg-mappings",
-	"seg-merge", "seg-cleave", "seg-renumber", "ann-elements", "ann-blocks", "ann-move", "kv-key", "kv-keyvalues", "nj-key", "nj-keyvalues", "nj-delete", "nj-stamps", "roi-roi", "roi-ptquery", "gray-raw", "gray-blocks", "url", "url",
+	"seg-merge", "seg-cleave", "seg-renumber", "ann-elements", "ann-blocks", "ann-move", "kv-key", "kv-keyvalues", "nj-key", "nj-keyvalues", "nj-delete", "nj-stamps", "roi-roi", "roi-ptquery", "gray-raw", "gray-blocks", "url", "url", "node-note", "node-log",
 }
 
 func (C20) Generate(r *rand.Rand, tier string, idx int) *drv.Scenario {
@@ -560,6 +560,29 @@ func (x *c20Exec) buildHostile(kind string, r *rand.Rand) (rq proto.Req, what st
 		b := make([]byte, 2*catB*catB*catB)
 		body, wh := mutGeneric(r, b)
 		return post(fmt.Sprintf("%s/blocks/%d_0_0/%d", gray, -1+r.IntN(3), pick(r, []int{2, 3, 0, -1, 1000000})), body), "grayscale blocks " + wh, nil
+	case "node-note", "node-log":
+		// node-level JSON bodies: a valid one first so that there is something to lose, then a damaged one
+		ep, valid := "/note", []byte(fmt.Sprintf(`{"note":"kept %d"}`, r.IntN(1000)))
+		if kind == "node-log" {
+			ep, valid = "/log", []byte(fmt.Sprintf(`{"log":["kept %d","and %d"]}`, r.IntN(1000), r.IntN(1000)))
+		}
+		at := "/api/node/" + x.e.x.uuid(x.head) + ep
+		if st, b, err := w.HTTP("POST", at, valid); err != nil {
+			return rq, "", err
+		} else if st != 200 {
+			return rq, "", fmt.Errorf("%w: valid POST %s refused: %d %s", drv.ErrInfra, at, st, trunc(b))
+		}
+		var body []byte
+		var wh string
+		switch r.IntN(4) {
+		case 0:
+			body, wh = []byte(`{"text":"no such field"}`), "object without the expected member"
+		case 1:
+			body, wh = []byte(`{}`), "empty object"
+		default:
+			body, wh = mutJSON(r, valid)
+		}
+		return post(at, body), "node " + ep[1:] + " " + wh, nil
 	case "url":
 		u := pick(r, hostileURLs)
 		m := pick(r, []string{"GET", "GET", "POST", "DELETE"})
@@ -601,7 +624,7 @@ func (x *c20Exec) dropTouched(s *Snapshot) {
 	for _, k := range s.Order {
 		drop := false
 		for inst := range x.touched {
-			if strings.Contains(k, "/node/"+hu+"/"+inst+"/") {
+			if strings.Contains(k, "/node/"+hu+"/"+inst+"/") || strings.Contains(k, "/node/"+hu+"/"+inst+" ") {
 				drop = true
 			}
 		}
@@ -770,7 +793,20 @@ func (C20) Execute(sc *drv.Scenario, w *drv.World) (*drv.Violation, error) {
 				x.touched["lsz"] = true
 			}
 			x.touched[inst] = true
+			if strings.HasPrefix(op.K, "node-") {
+				x.touched[op.K[5:]] = true
+			}
 			desc := fmt.Sprintf("%s %s (%d-byte body: %s)", rq.Method, rq.URL, len(rq.Body), what)
+			nodeBefore := ""
+			// kinds that replace one value as a whole: a refused request has nothing it may legitimately have applied in part
+			atomicKind := strings.HasPrefix(op.K, "node-") || op.K == "seg-index"
+			if atomicKind {
+				_, b, err := w.HTTP("GET", rq.URL, nil)
+				if err != nil {
+					return nil, err
+				}
+				nodeBefore = string(b)
+			}
 			res, err := w.Batch([]proto.Req{rq}, "barrier")
 			if err != nil {
 				if errors.Is(err, drv.ErrChildDied) {
@@ -801,6 +837,17 @@ func (C20) Execute(sc *drv.Scenario, w *drv.World) (*drv.Violation, error) {
 					w.Stats.Probe("hostile-answered-2xx")
 				case rp.Status >= 400 && rp.Status < 500:
 					w.Stats.Probe("hostile-answered-4xx")
+					if atomicKind {
+						_, b, err := w.HTTP("GET", rq.URL, nil)
+						if err != nil {
+							return nil, err
+						}
+						if string(b) != nodeBefore {
+							return viol("rejected-request-mutates", "a "+op.K+" POST answered with a client error changed the node's "+op.K[strings.Index(op.K, "-")+1:],
+								fmt.Sprintf("hostile request %s -> %d %s\nbefore: %q\nafter:  %q", desc, rp.Status, trunc(rp.Body), trimTo(nodeBefore, 300), trimTo(string(b), 300)), i), nil
+						}
+						w.Stats.Probe("rejected-node-post-left-unchanged")
+					}
 				default:
 					w.Stats.Probe(fmt.Sprintf("hostile-answered-%d", rp.Status))
 				}
